@@ -2,6 +2,7 @@
 package netpoll
 
 import (
+	"context"
 	"errors"
 	"fmt"
 	"io"
@@ -19,6 +20,8 @@ func init() {
 		func(t *vcTrial) { vcRunC07(t, vc07Cfg{Kind: "fdconn", Reads: 3, Force: "timeout", TimeoutKind: "timeout"}) },
 		func(t *vcTrial) { vcRunC07(t, vc07Cfg{Kind: "fdconn", Reads: 2, Force: "timeout", TimeoutKind: "deadline"}) },
 		func(t *vcTrial) { vcRunC07(t, vc07Cfg{Kind: "dial", Reads: 4, Force: "timeout", TimeoutKind: "timeout"}) },
+		func(t *vcTrial) { vcRunC07(t, vc07Cfg{Kind: "accept-hupwait", Reads: 2, Force: "peerclose", TimeoutKind: "none"}) },
+		func(t *vcTrial) { vcRunC07(t, vc07Cfg{Kind: "accept-hupwait", Reads: 3, Force: "peerclose", TimeoutKind: "timeout"}) },
 		func(t *vcTrial) {
 			vcRunC07(t, vc07Cfg{Kind: "accept", Reads: 3, Force: "data", TimeoutKind: "timeout", Mode: vcModePause, P: vpWaitReadTOBeforeSelect, Q: vpInputAckBeforeTrigger})
 		},
@@ -42,7 +45,10 @@ var vc07Q = []int{vpInputAckAfterBook, vpInputAckBeforeTrigger, vpOnHupAfterClos
 
 func vcScenC07(t *vcTrial) {
 	r := t.R
-	cfg := vc07Cfg{Kind: []string{"dial", "accept", "fdconn", "dial"}[r.intn(4)], Reads: r.rng(1, 6)}
+	cfg := vc07Cfg{Kind: []string{"dial", "accept", "fdconn", "dial", "accept-hupwait"}[r.intn(5)], Reads: r.rng(1, 6)}
+	if cfg.Kind == "accept-hupwait" {
+		cfg.Force = []string{"peerclose", "", ""}[r.intn(3)]
+	}
 	switch r.intn(3) {
 	case 0:
 		cfg.Mode = vcModeJitter
@@ -79,8 +85,19 @@ func vcMakeReaderConn(t *vcTrial, kind string) (Connection, *vc07Peer, func()) {
 		var once sync.Once
 		cl := func() { once.Do(func() { syscall.Close(pfd) }) }
 		return c, &vc07Peer{w: vcFDWriter(pfd), close: cl, rst: cl}, func() { c.Close(); cl() }
-	case "accept":
-		srv, err := vcStartServer(vcSrvOpts{Network: "tcp", NCloseCb: 0, NoOnRequest: true})
+	case "accept", "accept-hupwait":
+		so := vcSrvOpts{Network: "tcp", NCloseCb: 0, NoOnRequest: true}
+		if kind == "accept-hupwait" {
+			// OnDisconnect waits until the reader that was blocked at the time of the peer's close has
+			// been released: the wake-up of blocked calls must not depend on this callback returning
+			so.OnDisconnect = func(ctx context.Context, rec *vcConnRec) {
+				select {
+				case <-vc07ReaderReleased:
+				case <-time.After(20 * time.Second):
+				}
+			}
+		}
+		srv, err := vcStartServer(so)
 		if err != nil {
 			t.Inconclusive("server: %v", err)
 			return nil, nil, nil
@@ -153,6 +170,9 @@ func (f vcFDWriter) Write(p []byte) (int, error) {
 	return n, nil
 }
 
+// vc07ReaderReleased is signalled (never blocks) whenever a read of the current trial returned.
+var vc07ReaderReleased = make(chan struct{}, 64)
+
 type vc07Res struct {
 	err     error
 	p       []byte
@@ -170,6 +190,9 @@ func vcRunC07(t *vcTrial, cfg vc07Cfg) {
 	t.P("cfg", fmt.Sprintf("%+v", cfg))
 	t.P("P", vcPointName(cfg.P))
 	t.P("Q", vcPointName(cfg.Q))
+	for len(vc07ReaderReleased) > 0 {
+		<-vc07ReaderReleased
+	}
 	conn, peer, cleanup := vcMakeReaderConn(t, cfg.Kind)
 	if conn == nil {
 		return
@@ -266,6 +289,10 @@ func vcRunC07(t *vcTrial, cfg vc07Cfg) {
 					res.pan, res.stack = p, vfStack()
 				}
 				res.lenEnd = inner.inputBuffer.Len()
+				select {
+				case vc07ReaderReleased <- struct{}{}:
+				default:
+				}
 				resCh <- res
 			}()
 			if tk == "deadline" {
@@ -467,6 +494,52 @@ func vcRunC07(t *vcTrial, cfg vc07Cfg) {
 		}
 		if r.chance(40) {
 			conn.Reader().Release()
+		}
+	}
+	// ---- after the close has been seen by a read: a further timed read that needs more than is
+	// buffered must fail at once (the timer of earlier timed reads exists by now)
+	if (peerClosed || localClosed) && !t.Violated() && t.inconclusive == "" {
+		conn.SetReadTimeout(time.Duration(r.rng(5, 300)) * time.Millisecond)
+		type pr struct {
+			err error
+			pan interface{}
+		}
+		ch := make(chan pr, 1)
+		// more than can ever become readable: everything the peer sent minus what was consumed
+		need := int(sentPos-readPos) + 1 + r.intn(100)
+		go func() {
+			var x pr
+			defer func() {
+				if p := recover(); p != nil {
+					x.pan = p
+				}
+				ch <- x
+			}()
+			_, x.err = conn.Reader().Next(need)
+		}()
+		select {
+		case x := <-ch:
+			if x.pan != nil {
+				t.Violate("C07", "panic", "a timed read after the connection was closed panicked: %v", x.pan)
+			} else if x.err == nil {
+				t.Violate("C07", "success_without_data", "a read of %d bytes succeeded on a closed connection with fewer bytes buffered", need)
+			} else if !errors.Is(x.err, ErrConnClosed) && !errors.Is(x.err, ErrReadTimeout) {
+				t.Violate("C07", "error_class", "a timed read after close returned %v", x.err)
+			}
+			outcomes += "c"
+		case <-time.After(6 * time.Second):
+			if vcRunnerProgress(5, 5*time.Second) {
+				select {
+				case <-ch:
+				default:
+					t.Violate("C07", "reader_stuck", "a timed read (Next(%d), read timeout set) issued after the connection was closed (peer=%v local=%v) has not returned after 6s; earlier timed reads on this connection: %q; runner canary tasks completed meanwhile", need, peerClosed, localClosed, outcomes)
+					t.P("stuck_stacks", vcStacksContaining("waitRead"))
+					return
+				}
+			} else {
+				t.Inconclusive("post-close read did not return, canary without progress")
+				return
+			}
 		}
 	}
 	// did the reads actually park?
